@@ -346,6 +346,11 @@ def addAllometry (ss : List Stmt) (p : Sym) (var reference : Expr) (theta : Sym)
   let i ← findLastAssign ss p
   some (ss.take (i + 1) ++ [.assign p (allometryExpr p var reference theta)] ++ ss.drop (i + 1))
 
+/-- (counter-model, used only by a witness theorem) the same edit placed after the FIRST assignment of `p` -/
+def addAllometryFirst (ss : List Stmt) (p : Sym) (var reference : Expr) (theta : Sym) : Option (List Stmt) := do
+  let i ← ss.findIdx? (fun s => match s with | .assign x _ => x == p | _ => false)
+  some (ss.take (i + 1) ++ [.assign p (allometryExpr p var reference theta)] ++ ss.drop (i + 1))
+
 /-! ## Transit compartments -/
 
 /-- A rate `numer / denom` of a transit compartment (integer numerator, symbolic mean transit time). -/
